@@ -46,6 +46,8 @@ HasDupCorrupt(L, up) == \E sh \in Shnums : \E s1, s2 \in up :
     s1 # s2 /\ MayAccept(V, L[s1][sh]) /\ MayAccept(V, L[s2][sh]) /\ L[s1][sh].v = L[s2][sh].v /\ ~BodyValid(L[s1][sh])
 Cause(L, up) == IF HasOffsBad(L, up) THEN "_offsets_variant"
                 ELSE IF HasDupCorrupt(L, up) THEN "_dup_shnum_corrupt_copy" ELSE ""
+MidDup(M, L) == \E sh \in Shnums : \E s1, s2 \in DOMAIN M :
+    s1 # s2 /\ M[s1][sh] # 0 /\ M[s1][sh] = M[s2][sh] /\ (~BodyValid(L[s1][sh]) \/ ~MayAccept(V, L[s1][sh]))
 LiveCause(L, up) == IF HasDupCorrupt(L, up) THEN "_dup_shnum_corrupt_copy"
                     ELSE IF HasOffsBad(L, up) THEN "_offsets_variant" ELSE ""
 
@@ -83,7 +85,10 @@ VRead(e) ==
       T == [S EXCEPT !.maps = <<>>]
       b == Best(V, ml.M)
   IN IF maps = <<>> \/ m1.mode # "READ" THEN R("harness", "harness_no_read_map", S)
-     ELSE IF Rel("C10") /\ (e.res.kind = "livelock") THEN R("C10", "read_never_returns" \o LiveCause(L, S.up), T)
+     \* (a time-of-tamper read: the cause "one share number accepted from two servers, one copy then fails validation" is read off
+     \* the map of the read's own survey, the layout having changed since)
+     ELSE IF Rel("C10") /\ (e.res.kind = "livelock") THEN
+          R("C10", "read_never_returns" \o (IF "mid" \in DOMAIN e /\ e.mid /\ MidDup(ml.M, L) THEN "_dup_shnum_corrupt_copy" ELSE LiveCause(L, S.up)), T)
      \* a read during which the servers changed what they serve (after the survey): which bytes the reader had fetched before
      \* the change is not observable, so only the statement itself is judged - what is returned is a published version
      ELSE IF "mid" \in DOMAIN e /\ e.mid THEN
